@@ -283,7 +283,7 @@ func VerifC16Sync() {
 
 	// ---- the follower ----
 	fc := verifC05Chan(L, 0)
-	fstate := verifChoose("followerState", 6)
+	fstate := verifChoose("followerState", 7)
 	if leaderState == 3 {
 		// an empty leader is judged against followers that hold data of the same history (they are ahead of it
 		// and must be offered leadership); what an empty leader and an empty or foreign follower exchange (CLEAR,
@@ -314,6 +314,13 @@ func VerifC16Sync() {
 		k := verifRange("fotherlen", 1, 2)
 		fbase = leaderRight - int64(k)
 		fbytes = verifBytes("other", k)
+	case 6: // the same history, far ahead of the leader: two bytes that begin d bytes behind the leader's newest
+		// offset, d symbolic (a follower that was leader for a long time before this leader's source was read)
+		d := verifI64("ffar")
+		verifAssume(verifAnd(d >= 1, d <= 1<<40))
+		fbase = leaderRight + d
+		fbytes = verifBytes("far", 2)
+		verifCover(true, "c16.far-ahead")
 	default: // same history, but behind everything the leader still has as a log: k bytes that end g bytes
 		// before the leader's snapshot offset (the leader can only answer with its snapshot)
 		verifAssume(leaderState == 1 || leaderState == 2)
@@ -370,7 +377,7 @@ func VerifC16Sync() {
 
 	// ---- what the follower holds now ----
 	// (with an empty leader every follower that holds data of the same history is ahead of it)
-	sameHistoryAhead := fstate == 2 || (leaderState == 3 && fstate == 1)
+	sameHistoryAhead := fstate == 2 || fstate == 6 || (leaderState == 3 && fstate == 1)
 	if sameHistoryAhead && cli.cutCall < 0 {
 		verifAssert(err != nil && errors.Is(err, ErrLeaderTakeover), "C16.follower-ahead-not-offered-leadership")
 	}
@@ -379,6 +386,10 @@ func VerifC16Sync() {
 		l, r := fc.GetOffsetRange("r1")
 		verifAssert(l == fbase && r == fRightBefore, "C16.follower-ahead-overwritten")
 		verifCover(true, "c16.ahead")
+	}
+	if fstate == 6 {
+		verifReach("c16.end")
+		return
 	}
 	frunNow := fc.RunId()
 	if frunNow == "r1" {
